@@ -18,7 +18,7 @@ from saml2_tophat import BINDING_HTTP_POST as POST, BINDING_HTTP_REDIRECT as RED
 from saml2_tophat import BINDING_HTTP_ARTIFACT as ARTIFACT, BINDING_SOAP as SOAP, BINDING_PAOS as PAOS
 
 CLAIM = {
-    "text": "Coq theorems (Props/C09.v) over an executable model of Entity.response_args / pick_binding and MetadataStore.service (None vs [] vs list, several sources, UnknownSystemEntity vs swallowed UnsupportedBinding, the independent getattr reads of _url/_index, binding list derivation, destinations(srvs)[0], message-type dispatch and SOAP short-cut): for EVERY metadata store, configuration, request, bindings argument and descr_type, any (binding, destination) produced is an endpoint the metadata registers for the stripped issuer under the consulted role and service (or the empty back-channel destination of the bindings==[SOAP] short-cut); a supplied consumer URL is answered only when string-equal to a registered location and otherwise the result is an error (never that URL), and a URL registered in the effective endpoint list is honoured; an issuer without that role in metadata always yields an error. The index half holds too (C09_index, C09_unknown_index_refused): an AuthnRequest naming an index and no URL is answered only to an endpoint carrying exactly that index, an unknown index is refused; for the code before the repair fix: 05de9b7d the file keeps the refutation (C09_index_before_fix_refuted, witness) about the separately named response_args_before_fix. Tie to the code: exhaustive cross product of small metadata layouts x request variants (URL registered / unregistered / near-miss, index, protocol binding, issuer, bindings argument, AuthnRequest / LogoutRequest / other message classes) through the real Server.response_args and pick_binding on every run, random larger layouts on top.",
+    "text": "Coq theorems (Props/C09.v) over an executable model of Entity.response_args / pick_binding and MetadataStore.service (None vs [] vs list, several sources, UnknownSystemEntity vs swallowed UnsupportedBinding, the independent getattr reads of _url/_index, binding list derivation, destinations(srvs)[0], message-type dispatch and SOAP short-cut): for EVERY metadata store, configuration, request, bindings argument and descr_type, any (binding, destination) produced is an endpoint the metadata registers for the stripped issuer under the consulted role and service (or the empty back-channel destination of the bindings==[SOAP] short-cut); a supplied consumer URL is answered only when string-equal to a registered location and otherwise the result is an error (never that URL), and a URL registered in the effective endpoint list is honoured; an issuer without that role in metadata always yields an error. The index half holds too (C09_index, C09_unknown_index_refused): an AuthnRequest naming an index and no URL is answered only to an endpoint carrying exactly that index, an unknown index is refused; for the code before the repair fix: 05de9b7d the file keeps the refutation (C09_index_before_fix_refuted, witness) about the separately named response_args_before_fix. Binding strings and entity ids that contain each other (C09_contained_binding_differs, C09_answered_binding_admitted, C09_no_equal_binding_refused, C09_contained_binding_refused, C09_contained_entity_id_refused): the answered binding is an element of the admitted binding list and exactly the registered endpoint's binding string; a proper super-/sub-string (HTTP-POST-SimpleSign vs HTTP-POST, trailing slash/space, the prefix ...:HTTP) is a different binding, and an issuer whose endpoints (or whose look-alike entity ids) only contain / are contained in the admitted ones is refused. Tie to the code: exhaustive cross product of small metadata layouts x request variants (URL registered / unregistered / near-miss, index, protocol binding, issuer, bindings argument, AuthnRequest / LogoutRequest / other message classes) through the real Server.response_args and pick_binding on every run, random larger layouts on top; 34 layouts with endpoints under super-/sub-string and case-variant binding strings x 14 ProtocolBinding values x 26 bindings arguments x 4 preferred_binding tables, and 6 multi-source layouts with entity ids differing by trailing slash / case / one character x 9 issuers (oracle keys binding-string-not-exact, other-entity-endpoint).",
     "note": "Trusted: Coq kernel + vm_compute; the hand-written model is tied to the code by the correspondence (exhaustive for the small layouts, compared at answered-to/refused granularity plus exact binding and destination); str.strip() is modelled by Python's isspace code-point set; metadata loading itself (XML -> store) is C16's subject and enters here only through generated, valid, single-protocol descriptors. Finding F4 (pick_binding read <service>_index only when the request class lacked <service>_url, so an unknown AssertionConsumerServiceIndex was answered to the default endpoint) was found by this check and repaired in /repo (fix: 05de9b7d; known_findings.json 'fixed'); the oracle key acs-index-not-consulted:pick_binding reports it again if it returns. When a request carries both a URL and an index the URL decides and the index is not consulted (modelled; the statement's 'honoured only if registered' holds for the URL).",
     "technique": "machine-checked proof (Coq) + exhaustive small-scope and random model/implementation correspondence + implementation-level oracle",
 }
